@@ -439,7 +439,7 @@ def h_range(lens, step):
                 lens, A, B, step, res['positions'], res['stops'], want), payload
         return False, 'native result agrees (%s)' % res['positions'], payload
     tw = [('a non-empty selection', n > 0)] if total > 0 else [('the empty array', n == 0)]
-    if P >= 2 and total >= 2:
+    if sum(1 for x in lens if x > 0) >= 2:
         tw.append(('selection spans more than one partition', z3.Or([z3.And(pushes[i][0], pushes[j][0]) for i in range(len(pushes)) for j in range(i + 1, len(pushes))] + [z3.BoolVal(False)])))
     small = lambda v: z3.Or(v == KNONE, z3.And(v >= -total - 2, v <= total + 2))
     return mdischarge(m, 'PartitionedArray::getitem_range lens=%s step=%s' % (','.join(map(str, lens)), 'None' if step == KNONE else step), obls, tw, replay=replay,
@@ -498,6 +498,6 @@ def range_jobs(tier):
         for s in steps:
             if tier == 'quick' and len(l) == 3 and s in (KNONE, -1, 1) and l[1] != 4:
                 continue
-            js.append((h_range, (l, s), 600))
-        js.append((h_getitem_at, (l,), 600))
+            js.append((h_range, (l, s), 1800))
+        js.append((h_getitem_at, (l,), 1800))
     return js
